@@ -287,8 +287,16 @@ Section Parse.
     | S n', String _ r => drop n' r
     | _, _ => s
     end.
-  Definition lit (p s : string) : option string :=
-    if String.prefix p s then Some (drop (String.length p) s) else None.
+  (* parse_ident: the literal must follow byte for byte *)
+  Fixpoint lit (p s : string) : option string :=
+    match p with
+    | EmptyString => Some s
+    | String a p' =>
+        match s with
+        | String b s' => if Ascii.eqb a b then lit p' s' else None
+        | EmptyString => None
+        end
+    end.
 
   (* de.rs deserialize_any + SeqAccess/MapAccess; [rd] is remaining_depth (starts at 128; entering
      a container decrements it and fails when it reaches 0); [fuel] only makes the recursion
